@@ -38,6 +38,20 @@ func (c *vC07Case) statusPresent() bool {
 	return c.srv.s.metadata.partitionFailovers[c.p] != nil
 }
 
+// witnessCount: reports currently recorded against the partition's leader (a record that lingers after
+// an election is empty).
+func (c *vC07Case) witnessCount() int {
+	c.srv.s.metadata.mu.RLock()
+	st := c.srv.s.metadata.partitionFailovers[c.p]
+	c.srv.s.metadata.mu.RUnlock()
+	if st == nil {
+		return 0
+	}
+	st.mu.Lock()
+	defer st.mu.Unlock()
+	return len(st.witnesses)
+}
+
 func (c *vC07Case) obs() {
 	leader, le := c.p.GetLeader()
 	isr := c.p.GetISR()
@@ -196,6 +210,11 @@ func TestVerifC07(t *testing.T) {
 				}
 			case "expire":
 				time.Sleep(timeout + timeout/2)
+				if c.hadSt && c.witnessCount() > 0 {
+					// reports are only good for the timeout window: with nothing reported for one and a half
+					// windows the record of witnesses has to be gone, whatever failovers came before
+					c.viol = fmt.Sprintf("reports against leader %s (epoch %d) were recorded; nothing was reported for %v (the window is %v) and the record is still there: later reports will be added to expired ones", curLeader, curLe, timeout+timeout/2, timeout)
+				}
 				if c.hadSt && !c.statusPresent() {
 					c.rec = append(c.rec, vM{"op": "expire"})
 					quorumSeen = map[string]bool{}
@@ -214,6 +233,9 @@ func TestVerifC07(t *testing.T) {
 
 	// corpus: b and c report a; then one report by an id that is not a replica
 	runCase(0, 3, []vM{{"op": "report", "r": 2}, {"op": "report", "r": 3}, {"op": "report", "r": 9}, {"op": "report", "r": 3}})
+	// corpus: a failover; then one follower reports the new leader and nothing follows for more than the
+	// window: that report has expired when the other follower reports
+	runCase(100000, 3, []vM{{"op": "report", "r": 2}, {"op": "report", "r": 3}, {"op": "report", "r": 1}, {"op": "expire"}, {"op": "report", "r": 2}, {"op": "report", "r": 3}})
 	for id := 1; id <= n; id++ {
 		nrep := 2 + r.pick(1, 5, 1, 3)
 		var script []vM
